@@ -34,6 +34,16 @@ Definition neutral_opt (o : gbytes) : bool := existsb (gbytes_eqb o) neutral_opt
 Definition dial_policy (opts : list gbytes) : option policy :=
   if forallb neutral_opt opts then Some no_retry else None.
 
+(* the :authority of every request on a connection: the gun option dial_options.authority when it is set
+   (MakeGRPCConnect: grpc.WithAuthority), the address dialled otherwise *)
+Definition conn_authority (configured addr : gbytes) : gbytes :=
+  match configured with [] => addr | _ => configured end.
+
+(* the distinct authorities the servers see in a run: the reflection request of warm-up goes to the
+   reflection address, the calls (if any arrives) to the target *)
+Definition run_authorities (configured target_addr reflect_addr : gbytes) (any_call : bool) : list gbytes :=
+  conn_authority configured reflect_addr :: (if any_call then [conn_authority configured target_addr] else []).
+
 (* ---------- the model's reading of the source, compared with Gen/GrpcDialGen.v by the bridge ---------- *)
 
 (* the only function that dials *)
